@@ -130,12 +130,13 @@ func validConc(c *ConcCase) bool {
 type stormPanic struct{}
 
 type concRun struct {
-	c      *ConcCase
-	q      waiter.Queue
-	ents   []waiter.Entry
-	chans  []chan struct{}
-	ticket atomic.Int64
-	start  atomic.Int32
+	c       *ConcCase
+	q       waiter.Queue
+	ents    []waiter.Entry
+	chans   []chan struct{}
+	ticket  atomic.Int64
+	start   atomic.Int32
+	startCh chan struct{}
 	// notifier slots: one per notifier goroutine plus one for the main
 	// goroutine's closing sweep. Callbacks find their slot by goroutine id.
 	ngid  []atomic.Int64
@@ -179,6 +180,19 @@ func (cb *concCB) Callback(e *waiter.Entry) {
 	if y := r.c.CbYield; y > 0 && t%int64(y) == 0 {
 		runtime.Gosched()
 	}
+}
+
+// awaitStart is the start barrier: a short spin so that the participants leave
+// it as simultaneously as possible, then a blocking wait (so that an
+// overloaded machine is not loaded further).
+func (r *concRun) awaitStart() {
+	for i := 0; i < 64; i++ {
+		if r.start.Load() != 0 {
+			return
+		}
+		runtime.Gosched()
+	}
+	<-r.startCh
 }
 
 func (r *concRun) fail(f *evid.Failure) {
@@ -267,7 +281,7 @@ func (r *concRun) doNotifierOp(g string, slot int, o COp, log *[]HOp) {
 func execConc(c *ConcCase, rep int) (*Hist, *evid.Failure) {
 	nw, nn, ne := len(c.Workers), len(c.Notifiers), len(c.Kinds)
 	r := &concRun{c: c, ents: make([]waiter.Entry, ne), chans: make([]chan struct{}, ne),
-		ngid: make([]atomic.Int64, nn+1), cbBuf: make([][]HCb, nn+1), fatalCh: make(chan struct{})}
+		ngid: make([]atomic.Int64, nn+1), cbBuf: make([][]HCb, nn+1), fatalCh: make(chan struct{}), startCh: make(chan struct{})}
 	for e, k := range c.Kinds {
 		if k == "cb" {
 			r.ents[e] = waiter.Entry{Callback: &concCB{r, e}}
@@ -289,9 +303,7 @@ func execConc(c *ConcCase, rep int) (*Hist, *evid.Failure) {
 			defer r.guard(name)
 			gids[w].Store(curGID())
 			ready.Done()
-			for r.start.Load() == 0 {
-				runtime.Gosched()
-			}
+			r.awaitStart()
 			for _, o := range c.Workers[w] {
 				r.doWorkerOp(name, o, &logs[w])
 			}
@@ -307,9 +319,7 @@ func execConc(c *ConcCase, rep int) (*Hist, *evid.Failure) {
 			gids[nw+n].Store(id)
 			r.ngid[n].Store(id)
 			ready.Done()
-			for r.start.Load() == 0 {
-				runtime.Gosched()
-			}
+			r.awaitStart()
 			for _, o := range c.Notifiers[n] {
 				r.doNotifierOp(name, n, o, &logs[nw+n])
 			}
@@ -317,6 +327,7 @@ func execConc(c *ConcCase, rep int) (*Hist, *evid.Failure) {
 	}
 	ready.Wait()
 	r.start.Store(1)
+	close(r.startCh)
 	done := make(chan struct{})
 	go func() { wg.Wait(); close(done) }()
 
@@ -437,7 +448,7 @@ type period struct {
 }
 
 type concStats struct {
-	overlapNotifies                             int // notifies overlapping a register/unregister
+	overlapNotifies                              int // notifies overlapping a register/unregister
 	must, mustNot, racingCalled, racingNotCalled int // (notify, counting entry) pairs by class
 	takeToken, takeEmpty, takeMustToken          int
 	eventsRacing                                 int
@@ -672,6 +683,17 @@ func histKey(h *Hist) string {
 // attributes a detected data race to one execution.
 var stressT *testing.T
 
+// stressBegan/stressBudget bound the wall time the stress unit spends
+// exploring: on an overloaded machine lock hand-offs get slow and the planned
+// number of programs could exceed the unit's time-out. Once the budget is used
+// up the remaining generated programs are skipped (and not counted). This is
+// an exploration budget, not an assertion.
+var (
+	stressBegan  time.Time
+	stressBudget time.Duration
+	budgetNote   sync.Once
+)
+
 func runConc(c *ConcCase) *evid.Failure {
 	if !validConc(c) {
 		evid.Label("conc_invalid_case_skipped")
@@ -682,6 +704,13 @@ func runConc(c *ConcCase) *evid.Failure {
 	reps := c.Reps
 	if evid.ReplayMode() {
 		reps *= 25
+	} else if stressBudget > 0 && time.Since(stressBegan) > stressBudget {
+		evid.Label("conc_program_skipped_time_budget_used_up")
+		budgetNote.Do(func() {
+			evid.Note("conc: the stress unit used up its wall-time budget (%v) before all planned programs ran; the rest was skipped and is not counted", stressBudget)
+		})
+		evid.Eval(-1) // evid.Run counts every generated case; this one was not executed
+		return nil
 	}
 	for rep := 0; rep < reps; rep++ {
 		var h *Hist
@@ -802,6 +831,7 @@ func genConc(rt *rapid.T) *ConcCase {
 func TestConcStress(t *testing.T) {
 	stressT = t
 	defer func() { stressT = nil }()
+	stressBegan, stressBudget = time.Now(), evid.Pick(90*time.Second, 12*time.Minute)
 	evid.Run(t, evid.Spec[*ConcCase]{Name: "conc", Gen: genConc, Run: runConc})
 }
 
@@ -816,7 +846,9 @@ func TestConcOracleSelf(t *testing.T) {
 	notify := func(m uint16, b, en int64, cbs ...HCb) HOp {
 		return HOp{G: "n0", K: "notify", M: m, B: b, End: en, Cbs: cbs}
 	}
-	take := func(e int, got uint16, b, en int64) HOp { return HOp{G: "w0", K: "take", E: e, Got: got, B: b, End: en} }
+	take := func(e int, got uint16, b, en int64) HOp {
+		return HOp{G: "w0", K: "take", E: e, Got: got, B: b, End: en}
+	}
 	cases := []struct {
 		name  string
 		kinds []string
